@@ -1,4 +1,5 @@
 import KafVerif.Lemmas.StorageLog
+import KafVerif.Lemmas.StorageLogS3
 /-!
 C01 — Acknowledged produce is durable in S3.
 
@@ -85,3 +86,108 @@ example : ∃ s, Reachable fixed ⟨0, 0⟩ s ∧ s.acked ≠ [] := by
   intro hn; simp [hn] at this
 
 end KafVerif.StorageLog
+
+/-!
+### Lower seam: the real S3 client (`awsS3Client`, pkg/storage/s3_aws.go)
+
+The transition system above takes "`UploadSegment` / `UploadIndex` returned nil" (`seg t true`, `idx t true`) to mean
+"the object is in S3".  For the AWS client that is a property of `putObject`'s retry wrapper (first PUT; on a
+bucket-missing error `EnsureBucket` and one retry), proved here for EVERY outcome the S3 API can give to each
+call (script of injected failures of any length, any endpoint state), under the API assumption that a PutObject
+answering success has stored the request body (`apiPut`).
+-/
+namespace KafVerif.S3Aws
+open KafVerif
+
+/-- **C01 (S3 client).** For every endpoint state, every script of API outcomes, key and body: if `putObject`
+(`UploadSegment` / `UploadIndex`) returns nil, the endpoint holds exactly `body` under `key`. -/
+theorem _root_.KafVerif.C01.put_ok_implies_stored (s : St) (key : String) (body : Bytes)
+    (h : (putObject s key body).2 = true) : lookup (putObject s key body).1.api.objs key = some body := by
+  rw [(putObject_spec s key body).1 h]
+  exact lookup_store_same _ _ _
+
+/-- a failed upload leaves the old object (or none) or the new one, nothing else -/
+theorem _root_.KafVerif.C01.put_err_keeps_or_stores (s : St) (key : String) (body : Bytes)
+    (h : (putObject s key body).2 = false) :
+    lookup (putObject s key body).1.api.objs key = lookup s.api.objs key ∨
+    lookup (putObject s key body).1.api.objs key = some body := by
+  rcases (putObject_spec s key body).2 h with e | e
+  · left; rw [e]
+  · right; rw [e]; exact lookup_store_same _ _ _
+
+/-- an upload never touches another key -/
+theorem _root_.KafVerif.C01.put_other_keys_untouched (s : St) (key k : String) (body : Bytes) (hk : k ≠ key) :
+    lookup (putObject s key body).1.api.objs k = lookup s.api.objs k := by
+  cases hr : (putObject s key body).2 with
+  | true => rw [(putObject_spec s key body).1 hr]; exact lookup_store_other _ _ _ _ hk
+  | false =>
+    rcases (putObject_spec s key body).2 hr with e | e
+    · rw [e]
+    · rw [e]; exact lookup_store_other _ _ _ _ hk
+
+/-- **Witness for the shadowed-error variant (seeded change C01-r2-2).** Bucket missing, first PUT answers
+NoSuchBucket, `EnsureBucket` creates the bucket, the retried PUT is throttled: the rewritten `putObject` reports
+success and the bucket holds no object; the real `putObject` reports the error. -/
+theorem _root_.KafVerif.C01.put_shadow_violates :
+    let s : St := { api := { bucket := false, objs := [] }, script := [.nat, .nat, .nat, .fail .slow] }
+    (putObjectShadow s "k" [1]).2 = true ∧ lookup (putObjectShadow s "k" [1]).1.api.objs "k" = none ∧
+    (putObject s "k" [1]).2 = false := by
+  decide
+
+/-- **C01 (S3 client, read side).** What `DownloadSegment` / `DownloadIndex` return without error is the stored
+object (whole object when no range is given; a contiguous slice of it otherwise). -/
+theorem _root_.KafVerif.C01.download_ok_is_stored (s : St) (key : String) (rng : Option (Int × Int)) (d : Bytes) :
+    ((downloadSegment s key rng).2 = .data d →
+      ∃ obj, lookup s.api.objs key = some obj ∧ (rng = none → d = obj) ∧ ∃ i n, d = (obj.drop i).take n) ∧
+    ((downloadIndex s key).2 = .data d → lookup s.api.objs key = some d) := by
+  constructor
+  · intro h
+    unfold downloadSegment at h
+    cases hg : apiGet s key rng with
+    | mk s' r =>
+      rw [hg] at h
+      cases r with
+      | error e => simp at h
+      | ok d' =>
+        simp only [Ret.data.injEq] at h
+        subst h
+        exact apiGet_spec s key rng s' d' hg
+  · intro h
+    unfold downloadIndex at h
+    cases hg : apiGet s key none with
+    | mk s' r =>
+      rw [hg] at h
+      cases r with
+      | error e => simp only at h; split at h <;> simp at h
+      | ok d' =>
+        simp only [Ret.data.injEq] at h
+        subst h
+        obtain ⟨obj, h1, h2, _⟩ := apiGet_spec s key none s' d' hg
+        rw [h1, h2 rfl]
+
+/-- `EnsureBucket` returning nil means the bucket exists afterwards (and no object changed) -/
+theorem _root_.KafVerif.C01.ensure_ok_bucket_exists (s : St) (h : (ensureBucket s).2 = true) :
+    (ensureBucket s).1.api.bucket = true ∧ (ensureBucket s).1.api.objs = s.api.objs :=
+  ⟨(ensureBucket_spec s).2 h, (ensureBucket_spec s).1⟩
+
+/-- **C01 (the two uploads of a flush).** `uploadFlush` acknowledges when BOTH uploads returned nil; then, whatever
+the API answered to any call of either upload (scripts `sc1`, `sc2`, any endpoint state), the segment object AND the
+index object are stored with their bytes. -/
+theorem _root_.KafVerif.C01.flush_uploads_ok_implies_both_stored (a : Api) (sc1 sc2 : List Tok)
+    (segKey idxKey : String) (segBody idxBody : Bytes) (hk : segKey ≠ idxKey) :
+    let t1 := putObject { api := a, script := sc1 } segKey segBody
+    let t2 := putObject { api := t1.1.api, script := sc2 } idxKey idxBody
+    t1.2 = true → t2.2 = true →
+    lookup t2.1.api.objs segKey = some segBody ∧ lookup t2.1.api.objs idxKey = some idxBody := by
+  intro t1 t2 h1 h2
+  refine ⟨?_, KafVerif.C01.put_ok_implies_stored _ _ _ h2⟩
+  rw [KafVerif.C01.put_other_keys_untouched _ idxKey segKey idxBody hk]
+  exact KafVerif.C01.put_ok_implies_stored _ _ _ h1
+
+/-- non-vacuity: a run in which the retry succeeds (nil, stored) and one in which the first PUT succeeds -/
+example : (putObject { api := { bucket := false, objs := [] }, script := [] } "k" [7]).2 = true ∧
+    (putObject { api := { bucket := true, objs := [("k", [1])] }, script := [.fail .nsb, .fail .nf, .fail .owned] } "k" [7]).2 = true ∧
+    lookup (putObject { api := { bucket := true, objs := [("k", [1])] }, script := [.fail .slow] } "k" [7]).1.api.objs "k" = some [1] := by
+  decide
+
+end KafVerif.S3Aws
